@@ -639,6 +639,9 @@ pub fn run_storm(c: &StormCase, dir: &Path, _findings: &Findings) -> Result<Case
                         if r != nrec {
                             return Err(format!("conc/storm/records-count-torn: records_count() = {} while {} records are stored throughout", r, nrec));
                         }
+                        // what a metrics poller of an application reads (values are not judged: they must come back)
+                        let _ = s.index_memory().await;
+                        let _ = s.disk_used().await;
                         if !keys.is_empty() {
                             i = (i + 7) % keys.len();
                             let kb = storm_key(keylen, keys[i]);
@@ -654,12 +657,21 @@ pub fn run_storm(c: &StormCase, dir: &Path, _findings: &Findings) -> Result<Case
                     Ok(polls)
                 }));
             }
-            for _ in 0..(c.rounds as usize * 4) {
-                let _ = s.try_restore_active().await;
-                let _ = s.try_close_active().await;
-                stats.steps += 1;
-            }
+            // (the cycle runs as a task of its own and is watched like the clients: if it got stuck the harness would too)
+            let cycles = c.rounds as usize * 4;
+            let cycler = {
+                let s = s.clone();
+                tokio::spawn(async move {
+                    for _ in 0..cycles {
+                        let _ = s.try_restore_active().await;
+                        let _ = s.try_close_active().await;
+                    }
+                })
+            };
+            let cyc = join_watch(vec![cycler], &**s, "restore / close cycle under invariant polls").await;
             stop.store(true, SeqCst);
+            cyc?;
+            stats.steps += cycles as u64;
             for h in join_watch(hs, &**s, "lifecycle storm").await? {
                 match h {
                     Ok(Ok(p)) => stats.queries += 3 * p,
